@@ -71,6 +71,7 @@ def main():
                 rc, out = sh(["/venv/bin/python", "_demo.py"], cwd=WT, env=env)
                 meta["demo_clean_rc"] = rc
                 sh(["git", "-C", WT, "apply", patch])
+                shutil.rmtree(NC, ignore_errors=True)      # a JIT cache written under another patch must not decide this suite run
                 rc, out = sh(["/venv/bin/python", "-m", "pytest", "-q", "-p", "no:cacheprovider", "-x"] + [x for t in DESELECT for x in ("--deselect", t)], cwd=WT, env=env)
                 meta["tests_rc"] = rc
                 meta["tests_tail"] = out.strip().split("\n")[-1]
